@@ -212,6 +212,10 @@ def neutral_header_lists(seed, maxn):
 def part_header(sh, res):
     from vf import drive
     items, names = neutral_header_lists(sh['seed'], sh['maxn'])
+    if sh.get('nasty'):
+        # column names with quote characters and backslashes, addressed through both subscript quote styles
+        names = ["driver's name", 'say "hi"', 'back\\slash']
+        items = [it for it in items if it[0] != 'named'] + [('named', 'a', n, st) for n in names for st in ('dq', 'sq')]
     bnames = ['jkey', 'jval']
     A = [['k', 'm', 'c'], ['m', 'k', 'd']]
     B = [['k', 'p'], ['m', 'q']]
@@ -283,6 +287,7 @@ def main(tier, seed):
             continue
         shards.append({'part': 'cross', 'o': o, 'cfg': cfg, 'pair_limit': 200 if T else 40})
     shards.append({'part': 'header', 'seed': seed, 'maxn': 2})
+    shards.append({'part': 'header', 'seed': seed, 'maxn': 2, 'nasty': True})
     if T:
         shards.append({'part': 'header', 'seed': seed + 1, 'maxn': 2})
     res = core.run_shards('vf.checks.c18', shards)
